@@ -6,7 +6,6 @@ From Coq Require Import String.
 From Coq Require Import List Bool Arith NArith ZArith.
 Import ListNotations.
 Require Import Str G_cli_consts CliModel.
-Require PyLib G_fn_cli RefCli.
 
 Theorem C19_invalid_combinations_rejected_before_any_call :
   forall a, (a_undo a = true /\ a_ips a = true) \/ (a_undo a = true /\ a_salt a = None) \/ (a_dump a <> None /\ a_ips a = false)
@@ -31,18 +30,6 @@ Theorem C19_documented_defaults :
   /\ RFC_1918_TXT = map lit ["10.0.0.0/8"; "172.16.0.0/12"; "192.168.0.0/16"]%string.
 Proof. exact documented_defaults. Qed.
 
-(* TIE A (function level): the Gallina function GENERATED on this run from netconan.main, with the argument parser returning the namespace object of the
-   parsed arguments and anonymize_files left uninterpreted (its first call ends the run and is what we observe), does exactly what main_model says:
-   raises ValueError, returns without calling, or calls anonymize_files with the model's argument tuple -- for every record of parsed arguments *)
-Theorem C19_generated_main_is_the_model : forall (a : args) (lv argv : PyLib.pyval) (fuel : nat),
-  match main_model a with
-  | MRaise _ => exists m, G_fn_cli.gen_main (RefCli.oracle a lv) fuel argv = PyLib.Exc (PyLib.ValueError m)
-  | MNoCall => G_fn_cli.gen_main (RefCli.oracle a lv) fuel argv = PyLib.Normal PyLib.VNone
-  | MCall c => G_fn_cli.gen_main (RefCli.oracle a lv) fuel argv = PyLib.Normal (RefCli.vcall c)
-  end.
-Proof. exact RefCli.gen_main_refines. Qed.
-
-Print Assumptions C19_generated_main_is_the_model.
 Print Assumptions C19_invalid_combinations_rejected_before_any_call.
 Print Assumptions C19_nothing_enabled_nothing_written.
 Print Assumptions C19_host_bits_reach_both_families.
